@@ -159,6 +159,7 @@ func (goh *GoatOverHttp) ServeHTTP(w http.ResponseWriter, r *http.Request) {
 		go goh.onConnect(source, conn)
 	}
 
+	vGate("http.serve.window", goh, rpc.GetId())
 	conn.readCh <- &rpc
 }
 
